@@ -35,6 +35,12 @@ Part "family" (SEQ)  the classes of "hist" are all direct subclasses of Componen
   no rendered class that carries its hash has such code is a violation; URLs of the family the step did not announce
   give 404 or the code of every class (with such code) that carries the hash.  State = (class, kind, digest of the
   cached script) entries of the media cache; non-trivial = scripts of at least two related classes cached side by side.
+  With the built-in cache (no timeout, no size bound) a URL must stay servable from the step that announced it until the next
+  clear / recreate / eviction of its key ("vanished-*" clauses).
+Part "lifecycle_and_names" (ENUM)  lifecycle: an older class object with the same import path (created first, never rendered) is
+  dropped and collected somewhere in every history of <= 4 ops over render(document|fragment) / drop_old / clear; every URL
+  announced since the last clear must be served after every step.  names: pairs of live classes of one module with related
+  names (equal length, differing only in non-ASCII letters / case / a digit) x both render orders x document / fragment.
 Part "shapes" (ENUM)  all classes with js, css in {None, "", blank, code, padded code} x
   document/fragment x first/second render: same oracle.
 Part "requests" (ENUM)  full product hash x kind x input-hash x method in two cache states:
@@ -50,8 +56,8 @@ Excluded / agnostic corners
     unroutable path (404 or 405); GET of a known class' kind it has no code for (404, or 200 with an
     empty body); GET before anything is cached (404 or the right body);
   * URLs of older renders after a later eviction; evictions *during* a render (cache too small);
-    component classes that were garbage collected, share an import path, or whose name is not an
-    identifier; cache backends other than locmem;
+    component classes that were garbage collected while their URLs are in use, two *different* live classes sharing an
+    import path, names that are not identifiers (beyond part lifecycle_and_names); cache backends other than locmem;
   * subclasses that set ``js = None`` / ``css = None`` explicitly (the docs say "defines"; the library treats None as
     not defined), ``js_file`` / ``css_file`` and ``Media`` inheritance (C04's ground), multiple inheritance.
 """
@@ -287,6 +293,9 @@ class World:
         self.trace = ()
         self.emitted = 0
         self.raised = 0
+        # built-in cache (no timeout, no size bound): a URL stays servable from the step that announced it until the
+        # next clear / recreate / eviction of its key - nothing else may remove a script
+        self.servable = set()
 
 
 _VALIDATED: set = set()
@@ -341,6 +350,11 @@ def hist_step(w: World, op):
     if html is not None:
         emitted = sorted({u for _, u in extract_urls(html)})
         w.emitted += len(emitted)
+    if op[0] in ("clear", "recreate"):
+        w.servable = set()
+    elif op[0] == "evict":
+        w.servable.discard(f"/components/cache/{env().cls[op[1]]._class_hash}.{op[2]}")
+    w.servable |= set(emitted)
     if replayed:
         return None, None
     opsym = op[0] + (":" + op[-1] if op[0] in ("render", "page", "slot") else "")
@@ -352,7 +366,12 @@ def hist_step(w: World, op):
     # (2) every other URL of the universe: right code or 404, never 5xx / foreign code
     for u in env().universe:
         if u not in emitted:
-            problem = check_lapsed(u)
+            if w.cache_cfg == "builtin" and u in w.servable:
+                problem = check_served(u)
+                if problem:
+                    problem = "vanished-" + problem.replace("emitted URL", "URL announced by an earlier step, not evicted since,")
+            else:
+                problem = check_lapsed(u)
             if problem:
                 return ("emitted", tuple(_sym(x) for x in emitted)), _tag(problem, opsym)
     _VALIDATED.add(w.trace)
@@ -747,6 +766,100 @@ def _shapes_task(_):
     return n, tr, nontriv, failures, len(outs)
 
 
+# ----------------------------------------------------------------------------- lifecycle + names part
+# lifecycle: an older class object with the SAME import path exists (a module executed twice, a class factory called
+# twice) - created before the live class, never rendered; it is dropped and collected at some point of the history.
+# names: two live classes of one module whose names are related (equal length, differing only in non-ASCII letters,
+# in case, in one digit).  Built-in cache; a URL stays servable from the render that announced it until a clear().
+NAME_PAIRS = [("Größe", "Grüße"), ("按钮", "表格"), ("Xa", "xa"), ("X1", "X2"), ("Xé", "Xe"), ("Xé", "Xè")]
+LIFE_OPS = [("render", "document"), ("render", "fragment"), ("drop_old",), ("clear",)]
+_LIFE_N = [0]
+
+
+def _life_case(seq_):
+    import gc
+
+    from django_components import Component
+
+    _LIFE_N[0] += 1
+    name = f"C19Life{_LIFE_N[0]}"
+    mk = lambda tag: type(name, (Component,), {"__module__": "verif_c19_life", "template": DOC % "<b>l</b>",  # noqa: E731
+                                                 "js": f"life_{tag}()", "css": f".life_{tag} {{}}"})
+    old = [mk("same")]  # same code: whichever class object the hash maps to, the served code is "that component's"
+    new = mk("same")
+    classes = {"L": new}
+    media_cache().clear()
+    servable, tr = set(), 0
+    for k, op in enumerate(seq_):
+        if op[0] == "render":
+            html = new.render(type=op[1])
+            urls = sorted({u for _, u in extract_urls(html)})
+            servable |= set(urls)
+        elif op[0] == "drop_old":
+            del old[:]
+            gc.collect()
+        else:
+            media_cache().clear()
+            servable = set()
+        tr += 1
+        for u in sorted(servable):
+            problem = check_served(u, classes)
+            if problem:
+                return tr, bool(servable), (problem.replace(name, "C19Life"), {"part": "lifecycle", "history": [list(o) for o in seq_[:k + 1]]})
+    return tr, bool(servable), None
+
+
+def _names_case(pair, order, t):
+    from django_components import Component
+
+    classes = {}
+    for nm in pair:
+        classes[nm] = type("C19N" + nm, (Component,), {"__module__": "verif_c19_names", "template": DOC % "<b>n</b>",
+                                                          "js": f"name_{nm}()", "css": f".name_{nm} {{}}"})
+    if len({c._class_hash for c in classes.values()}) != 2:
+        return 0, ("same-hash: classes %s and %s of one module get the same class hash %s - their URLs cannot both be served with "
+                   "their own code" % (pair[0], pair[1], classes[pair[0]]._class_hash), {"part": "names", "pair": list(pair), "order": order, "type": t})
+    media_cache().clear()
+    tr, announced = 0, set()
+    for nm in (pair if order == 0 else pair[::-1]):
+        html = classes[nm].render(type=t)
+        announced |= {u for _, u in extract_urls(html)}
+        tr += 1
+        for u in sorted(announced):
+            problem = check_served(u, classes)
+            if problem:
+                return tr, (problem, {"part": "names", "pair": list(pair), "order": order, "type": t})
+    return tr, None
+
+
+def _life_task(_):
+    env()
+    _cleanup()
+    boot.set_components_setting(cache=None)
+    failures, n, tr, nontriv = [], 0, 0, 0
+    for L in (1, 2, 3, 4):
+        for seq_ in product(LIFE_OPS, repeat=L):
+            if sum(1 for o in seq_ if o[0] == "drop_old") > 1 or not any(o[0] == "render" for o in seq_):
+                continue
+            n += 1
+            t, nt, bad = _life_case(seq_)
+            tr += t
+            nontriv += 1 if (nt and ("drop_old",) in seq_) else 0
+            if bad:
+                failures.append(("lifecycle|" + bad[0].split(": ")[0], bad[0], bad[1]))
+    for pair in NAME_PAIRS:
+        for order in (0, 1):
+            for t in ("document", "fragment"):
+                n += 1
+                nontriv += 1
+                k, bad = _names_case(pair, order, t)
+                tr += k
+                if bad:
+                    failures.append((f"names/{pair[0]}~{pair[1]}|" + bad[0].split(": ")[0], bad[0], bad[1]))
+    _cleanup()
+    return n, tr, nontriv, failures
+
+
 # ----------------------------------------------------------------------------- requests part
 METHODS = ["GET", "HEAD", "POST", "PUT", "PATCH", "DELETE", "OPTIONS"]
 
@@ -874,7 +987,7 @@ def _requests_task(_):
 # ----------------------------------------------------------------------------- driver
 def _dispatch(task):
     kind, arg = task
-    return {"bfs": _hist_bfs_task, "unmerged": _hist_unmerged_task, "shapes": _shapes_task, "requests": _requests_task,
+    return {"bfs": _hist_bfs_task, "unmerged": _hist_unmerged_task, "shapes": _shapes_task, "requests": _requests_task, "life": _life_task,
             "fam_bfs": _fam_bfs_task, "fam_unmerged": _fam_unmerged_task}[kind](arg)
 
 
@@ -901,7 +1014,7 @@ def run(ctx):
     depth = 4 if thorough else 3
     nops = len(hist_ops())
     # one pool for everything; the long BFS tasks go first
-    tasks = [("bfs", cfg) for cfg in CACHE_CFGS] + [("requests", 0), ("shapes", 0)]
+    tasks = [("bfs", cfg) for cfg in CACHE_CFGS] + [("requests", 0), ("shapes", 0), ("life", 0)]
     tasks += [("unmerged", (CACHE_CFGS[0], depth, first)) for first in range(nops)]
     if thorough:  # the configured cache one level shallower (21^4 sequences x 2 would not fit the time budget)
         tasks += [("unmerged", (CACHE_CFGS[1], depth - 1, first)) for first in range(nops)]
@@ -1008,6 +1121,13 @@ def run(ctx):
                         bound={"codes": len(CODES), "classes": len(CODES) ** 2})
             for problem, case in failures:
                 fnd.report(f"shapes/{case['shape']}/{case['type']}|{problem.split(': ')[0]}", f"{case}: {problem}", case)
+        elif kind == "life":
+            n, tr, nontriv, failures = res
+            ev.add_part("lifecycle_and_names", states=n, transitions=tr, validated=tr, nontrivial=nontriv,
+                        bound={"lifecycle_ops": [" ".join(o) for o in LIFE_OPS], "max_len": 4, "name_pairs": [list(p) for p in NAME_PAIRS],
+                               "orders": 2, "types": 2})
+            for ident, what, case in failures:
+                fnd.report(ident, what, case)
         elif kind == "requests":
             n, nontriv, failures, nouts, exp = res
             ev.add_part("requests", states=n, transitions=n, validated=n, nontrivial=nontriv, observed_distinct=nouts, expected=exp)
@@ -1047,6 +1167,17 @@ def replay(ctx, case):
                 break
         _cleanup()
         return ok
+    if part in ("lifecycle", "names"):
+        env()
+        _cleanup()
+        boot.set_components_setting(cache=None)
+        if part == "lifecycle":
+            _, _, bad = _life_case([tuple(o) for o in case["history"]])
+        else:
+            _, bad = _names_case(tuple(case["pair"]), case["order"], case["type"])
+        print(case, "->", bad[0] if bad else "ok")
+        _cleanup()
+        return bad is None
     if part == "shapes":
         n, tr, nontriv, failures, nouts = _shapes_task(0)
         hit = [f for f in failures if f[1]["shape"] == case["shape"] and f[1]["type"] == case["type"]]
